@@ -260,6 +260,22 @@ def run(ch, idx, tier):
     for stage in ("update_comps", "update_pars", "update_links", "flush_junctions"):
         seams.patch(amodel.Model, stage, wrap_stage(stage))
 
+    # pre-emption inside model construction as well (population by population)
+    def wrap_pop(name_):
+        orig = getattr(amodel.Population, name_)
+
+        def wrapper(self, *a, **k):
+            b = baton_holder.get("b")
+            if b is not None:
+                b.yield_point(name_)
+            return orig(self, *a, **k)
+
+        wrapper.__name__ = name_
+        return wrapper
+
+    for name_ in ("build", "initialize_compartments"):
+        seams.patch(amodel.Population, name_, wrap_pop(name_))
+
     # ---- disturbances ----------------------------------------------------------------------
     dist_entry = _CORPUS[names[0]]
     dist_P = dist_entry.project()
